@@ -72,7 +72,7 @@ def run_script(ctx, rp, script, nw, tag, max_paths):
     defs = {"Script": tla_seq(script), "WOrder": tla_seq(["w%d" % (i + 1) for i in range(nw)])}
     hdr = {"script": script, "workers": nw}
     return graph_replay(ctx, "ThreadPool", "ThreadPool", "ThreadPool_base.cfg", tag, rp, proj,
-                        header_fn=lambda k, st0: hdr, defs=defs, must_take=ACTIONS, max_paths=max_paths,
+                        header_fn=lambda k, st0: dict(hdr, form=k % 2), defs=defs, must_take=ACTIONS, max_paths=max_paths,
                         tlc_kw={"workers": 4})
 
 
